@@ -13,7 +13,21 @@ Tasks
                   there; y[0] bitwise; prefix / tuple reruns.
   adaptive_acc    closed-form families x (atol, rtol) x grids: global error <= 20 N (atol + rtol max|y|) + rounding floor.
 
-Tolerances (eps = 2.2e-16, L = generator-known Lipschitz constant of f in y, s = number of stages, h = interval):
+History of earlier calls (fixed_scheme, adaptive_steps): solve_ivp is a function of its arguments, so what ran before in the same
+process must not matter.  A case carries a `prelude`: 0-2 earlier solve_ivp calls (other dtype float32/float64, same or other method,
+other direction, other state shape, tuple/tensor state, other tolerances) that run_case executes *before* the judged call, so a
+replay file reproduces the history in a fresh process.  With a non-empty prelude the judged call is made once before the prelude and
+once after it: the two results and call logs must be bitwise equal (`history_dependence`), and the call *after* the prelude is the one
+the per-step oracle judges (a tableau converted/cached at the wrong precision by an earlier call is off by 6e-8 relative: the
+per-step tolerance is ~1e-14).  float32 is a judged dtype of these two tasks as well (ts and y0 in the same dtype), with every
+tolerance written in the eps of the dtype.
+Cases of one worker process share that process: a violation found after other cases have run is re-run in a pristine child
+process (forked before the first case) and reported only if it reproduces there - exactly what `--replay` does - so that every
+replay file reproduces; otherwise it is counted as discard `violation_only_after_earlier_cases_of_this_process`.  (After the first
+confirmed violation of a task its further cases - the candidates of the search for a smaller one - run in the pristine child only.)
+Prelude calls have their own evaluation budget (PRELUDE_MAX_CALLS), so a solver that no longer terminates is a violation, not a hang.
+
+Tolerances (eps = 2.2e-16 for float64, 1.2e-7 for float32, L = generator-known Lipschitz constant of f in y, s = number of stages, h = interval):
   one-step identity: 16 s eps (|y| + |h| max_j|k_j|) (1+|h|L)^(s-1)  + time-rounding term 4 eps (|t|+|h|) |h| max|Y| (1+|h|L)^(s-1)
   (different association order of the same formula perturbs each stage by a few ulp; a stage perturbation is amplified by at
   most |h| L per later stage).  Stage times: 2 ulp of (|t|+|h|).
@@ -21,29 +35,48 @@ Tolerances (eps = 2.2e-16, L = generator-known Lipschitz constant of f in y, s =
   accuracy: local error per accepted step <= scaled tolerance (the estimator bounds the lower-order formula, the higher one is
   propagated), amplified by at most exp(L T) <= e^2 on the generated families (L T <= 2), so 20 N (atol + rtol Ymax) with
   N = attempted steps covers it; rounding floor (1e3 + 4 tmax L) eps Ymax N (arithmetic + rounding of the step end times).
+  float32 adaptive steps are compared with the float64 SciPy step from xitorch's (upcast) base state: besides the terms above the
+  working-precision evaluation of f itself is off by (n + 8) eps (L |y| + |k|) per call (length-n dot products, tanh, sin), which
+  enters the step as 4 s |h| (1+|h|L)^s times that; time grids in float32 keep every interval >= 4096 eps |t0| (else the offset is
+  dropped) and requested tolerances >= 1e-5 (atol >= 1e-7 next to an rtol), i.e. well above the precision.
 """
 from __future__ import annotations
 
+import json
 import math
+import os
+import struct
+import traceback
 
 import numpy as np
 import torch
 from hypothesis import strategies as st
 
 from pbt import ref_c07 as R
-from pbt.harness import Task, ok, violation, discard, xt_call
+from pbt.harness import Task, Verdict, HarnessError, XitorchRaised, ok, violation, discard, xt_call, safe_run
 
 PID = "C07"
 RULE = ("fixed_scheme/adaptive_steps: method x generic non-autonomous f(t,y)=tanh(yW^T)+sin(t)y+b (|W|_inf in {0.5,2,5}) x state "
         "(tensor of shape from a pool incl. batches, or tuple/list of 1-3 parts of different shapes incl. 0-d) x grid (2..8 points, uniform or "
         "ragged integer increments, increasing or decreasing, span 1e-6 .. 30, offset up to 100) x (atol, rtol) in 1e-4..1e-11, rtol=0, atol=1e10; "
-        "plus one metamorphic rerun (prefix of the grid, tuple vs concatenated). fixed_order/adaptive_acc: families linear (matrix_exp), rotation, "
+        "plus one metamorphic rerun (prefix of the grid, tuple vs concatenated) x dtype (float64 3/4, float32 1/4 with atol, rtol in 1e-2..1e-5) x prelude "
+        "(0-2 earlier solve_ivp calls in the same process: same or other method, float32/float64, both directions, tensor/tuple state, 3 shapes, "
+        "3 tolerance settings; with a prelude the judged call is made before and after it and must be bitwise the same, the later one is judged). "
+        "fixed_order/adaptive_acc: families linear (matrix_exp), rotation, "
         "y'=-(at+b)y, y'=-ay^2, logistic with closed forms. Non-trivial = at least 2 intervals or a non-scalar state, f actually evaluated, "
         "(adaptive_steps: at least one rejected or more than one accepted step per interval; fixed_order: error above the rounding floor). "
         "Distinct by canonical case.")
 ASSUMPTIONS = [
-    "float64 only; at least 2 strictly monotone time points (a single time point raises IndexError for rk23/rk45 and repeated time points "
-    "make rk23/rk45 loop forever: both are outside the generated domain and reported separately)",
+    "float64, and float32 in fixed_scheme/adaptive_steps (ts and y0 in the same dtype); at least 2 strictly monotone time points (a single time point "
+    "raises IndexError for rk23/rk45 and repeated time points make rk23/rk45 loop forever: both are outside the generated domain and reported "
+    "separately); float32 grids keep every interval >= 4096 eps |t0| (else the offset is dropped) and float32 tolerances are >= 1e-5 (atol >= 1e-7 "
+    "next to an rtol), i.e. above the precision of the dtype",
+    "solve_ivp is a function of its arguments: the same call before and after unrelated solve_ivp calls of the same process returns the same "
+    "bits and evaluates f at the same times (the prelude is part of the case, so a replay reproduces it in a fresh process)",
+    "cases of one worker share a process: a violation seen after earlier cases is re-run in a pristine forked child and reported only if it "
+    "reproduces there (= what --replay does); otherwise it is counted as discard violation_only_after_earlier_cases_of_this_process",
+    "float32 adaptive steps: f evaluated in float32 differs from the float64 reference evaluation by <= (n+8) eps (L|y|+|k|) (stated rounding model); "
+    "steps shorter than 256 ulp of the time variable are not reconstructed from the call log (discard step_at_time_resolution, float32 only)",
     "textbook Euler/RK4/3-8 formulas and SciPy's RK23/RK45 class attributes (A, B, C, E, rk_step) are the references",
     "accept/reject is judged with xitorch's documented scalar tolerances: 2-norm of SciPy's estimator h K^T E against "
     "atol + rtol*max(|y0|_2,|y1|_2); decisions inside the estimator's rounding band are not judged",
@@ -55,8 +88,10 @@ ASSUMPTIONS = [
 ]
 LEVEL_TEXT = ("Exploration with model-based oracles: each fixed-step interval is compared with the textbook formula (one-step identity, call log), "
               "each attempted adaptive step and each accept/reject decision with SciPy's tableaus and error weights (reconstructed from the call log), "
-              "plus closed-form accuracy/order checks and metamorphic reruns (prefix, tuple vs tensor state, time reversal).")
-LEVEL_NOTE = "trusts SciPy's RK23/RK45 coefficients and rk_step, torch.linalg.matrix_exp, the stated rounding model; <= 8 time points, <= 12 state entries"
+              "plus closed-form accuracy/order checks and metamorphic reruns (prefix, tuple vs tensor state, time reversal, the same call before and "
+              "after a generated history of other solve_ivp calls).")
+LEVEL_NOTE = ("trusts SciPy's RK23/RK45 coefficients and rk_step, torch.linalg.matrix_exp, the stated rounding model; <= 8 time points, <= 12 state entries; "
+              "histories of <= 2 earlier calls")
 TECHNIQUE = "Hypothesis property-based testing: reference-model oracle (textbook / SciPy steps), call-log reconstruction, convergence order, metamorphic relations"
 WALL = {"quick": 300, "thorough": 1800}
 
@@ -73,6 +108,8 @@ def _site_first_step(case):
 SITES = {"first_step_whole_interval": _site_first_step}
 DT = R.DT
 EPS = R.EPS
+EPS32 = 1.1920928955078125e-07
+DTYPES = {"f64": (torch.float64, EPS), "f32": (torch.float32, EPS32)}
 SPAN = {"short": 1e-6, "unit": 1.0, "long": 30.0}
 PART_SHAPES = [[], [1], [2], [3], [1, 2], [2, 1], [2, 2]]
 TENSOR_SHAPES = [[1], [2], [3], [4], [2, 2], [3, 2], [1, 3], [2, 1, 2], [2, 3, 2]]
@@ -88,14 +125,32 @@ def numel(shape):
 # ------------------------------------------------------------------------------------------------------------------
 # a problem = flat right-hand side + a state layout
 
+class RHS(R.GenericRHS):
+    """the generic right-hand side of ref_c07 with its coefficients held in the working dtype; `as64` is the same function
+    (the same, already rounded, coefficients) evaluated in float64"""
+
+    def __init__(self, seed, n, wscale, dtype=DT):
+        super().__init__(seed, n, wscale)
+        self.W = self.W.to(dtype)
+        self.b = self.b.to(dtype)
+
+    def as64(self):
+        if self.W.dtype == DT:
+            return self
+        other = object.__new__(RHS)
+        other.W, other.b, other.L = self.W.to(DT), self.b.to(DT), self.L
+        return other
+
+
 class Problem:
     """f_flat(t, v) on the flat state v (viewed as (B, n)); user-level function for a tensor or a tuple state"""
 
-    def __init__(self, rhs, parts, form, n):
+    def __init__(self, rhs, parts, form, n, dtype=DT):
         self.rhs = rhs            # callable (t, y(B,n)) -> (B,n)
         self.parts = [tuple(p) for p in parts]
         self.form = form          # "tensor" | "tuple" | "list"
         self.n = n
+        self.dtype = dtype
         self.N = sum(numel(p) for p in parts)
         self.log = []             # (t float, flat y tensor)
         self.ncalls = 0
@@ -103,6 +158,10 @@ class Problem:
 
     def f_flat(self, t, v):
         return self.rhs(t, v.reshape(-1, self.n)).reshape(-1)
+
+    def f_flat64(self, t, v):
+        """the same right-hand side evaluated in float64 (reference for a float32 solve)"""
+        return self.rhs.as64()(t, v.reshape(-1, self.n)).reshape(-1)
 
     def flatten(self, ys):
         if isinstance(ys, torch.Tensor):
@@ -132,6 +191,8 @@ class Problem:
                 v = torch.cat([p.reshape(-1) for p in y])
             if not isinstance(t, torch.Tensor) or t.numel() != 1:
                 self.bad = "fcn called with t=%r (not a single-element tensor)" % (t,)
+            if v.dtype != self.dtype:
+                self.bad = "fcn called with a state of dtype %s in a %s solve" % (v.dtype, self.dtype)
             self.log.append((float(t), v.detach().clone()))
             out = self.f_flat(t, v)
             if self.form == "tensor":
@@ -169,7 +230,25 @@ def make_problem(case, rhs):
     N = sum(numel(p) for p in parts)
     divs = [d for d in range(1, N + 1) if N % d == 0]
     n = divs[st_["ndiv"] % len(divs)]
-    return Problem(rhs(n), parts, st_["form"], n)
+    return Problem(rhs(n), parts, st_["form"], n, dtype_of(case)[0])
+
+
+def dtype_of(case):
+    """(torch dtype, eps) of the judged call"""
+    return DTYPES[case.get("dtype", "f64")]
+
+
+def grid_times(case, span):
+    """python floats of the time grid, exactly representable in the dtype of the case.  float32: the offset t0 is kept only if
+    every interval is >= 4096 eps |t0| (else t0 = 0), so the grid stays strictly monotone and well resolved after rounding"""
+    grid = case["grid"]
+    dt, eps = dtype_of(case)
+    if dt != DT:
+        hmin = span * min(grid["incr"]) / float(sum(grid["incr"]))
+        if hmin < 4096 * eps * abs(grid["t0"]):
+            grid = dict(grid, t0=0.0)
+        return torch.tensor(R.grid_values(grid, span), dtype=dt).tolist()
+    return R.grid_values(grid, span)
 
 
 def span_of(grid):
@@ -179,12 +258,224 @@ def span_of(grid):
 def solve(prob, ts, v0, method, **opts):
     from xitorch.integrate import solve_ivp
     prob.log = []
+    prob.ncalls = 0
     res = xt_call(solve_ivp, prob.user_fcn(), ts, prob.user_y0(v0), method=method, _where="forward", **opts)
     return res
 
 
+# ------------------------------------------------------------------------------------------------------------------
+# history: earlier solve_ivp calls of the same process are part of the case
+
+PRELUDE_MAX_CALLS = 20000
+
+
+def run_prelude(e):
+    """one earlier, unrelated solve_ivp call: y' = -0.7 y + sin t on [0.25, 0.25 +- 0.6], described completely by the entry"""
+    from xitorch.integrate import solve_ivp
+    dt = DTYPES[e["dtype"]][0]
+    shape = tuple(e["shape"])
+    y0 = torch.linspace(0.5, 1.5, numel(shape), dtype=DT).reshape(shape).to(dt)
+    ts = (0.25 + e["dir"] * torch.linspace(0.0, 0.6, e["nt"], dtype=DT)).to(dt)
+    ncalls = [0]
+
+    def count():
+        ncalls[0] += 1
+        if ncalls[0] > PRELUDE_MAX_CALLS:       # (the most expensive entry, rk23 at 1e-8, needs ~500)
+            raise R.EvalBudget("more than %d evaluations of the right-hand side in the prelude call %r" % (PRELUDE_MAX_CALLS, e))
+    if e["form"] == "tuple":
+        y0 = (y0, torch.tensor(0.8, dtype=dt))
+
+        def fcn(t, y):
+            count()
+            return tuple(-0.7 * p + torch.sin(t) for p in y)
+    else:
+        def fcn(t, y):
+            count()
+            return -0.7 * y + torch.sin(t)
+    opts = {}
+    if e["method"] in R.ADAPTIVE and e["tol_e"] is not None:
+        opts = {"atol": 10.0 ** (-e["tol_e"]), "rtol": 10.0 ** (-e["tol_e"])}
+    xt_call(solve_ivp, fcn, ts, y0, method=e["method"], _where="prelude", **opts)
+
+
+def prelude_label(case):
+    pre = case.get("prelude") or []
+    if not pre:
+        return "prelude=none"
+    same_m = [e for e in pre if e["method"] == case["method"]]
+    if any(e["dtype"] != case.get("dtype", "f64") for e in same_m):
+        return "prelude=same_method_other_dtype"
+    if same_m:
+        return "prelude=same_method_same_dtype"
+    if any(e["dtype"] != case.get("dtype", "f64") for e in pre):
+        return "prelude=other_method_other_dtype"
+    return "prelude=other_method_same_dtype"
+
+
+def judged_solve(case, prob, ts, v0, method, **opts):
+    """the judged call.  With a non-empty prelude: the call, the prelude, the call again; returns the result of the last call
+    (prob.log is its call log) and the (flat result, evaluation times) of the call made before the prelude (or None)"""
+    prelude = case.get("prelude") or []
+    before = None
+    if prelude:
+        res0 = solve(prob, ts, v0, method, **opts)
+        before = (prob.result_flat(res0, ts.shape[0]), [t for t, _ in prob.log])
+        for e in prelude:
+            run_prelude(e)
+    return solve(prob, ts, v0, method, **opts), before
+
+
+def history_check(case, before, Y, log, labels):
+    """solve_ivp is a function of its arguments: the same call before and after other calls gives the same bits"""
+    if before is None:
+        return None
+    Y0, tlog0 = before
+    if isinstance(Y0, str):
+        return violation("result_shape", Y0, labels)
+    tlog = [t for t, _ in log]
+    if bitwise_equal(Y0, Y) and tlog0 == tlog:
+        return None
+    pre = "; ".join("%s %s %s dir=%+d %s" % (e["method"], e["dtype"], e["form"], e["dir"], e["shape"]) for e in case["prelude"])
+    if Y0.shape == Y.shape and Y0.dtype == Y.dtype:
+        what = "results differ by %.3e" % float((Y0 - Y).abs().max())
+    else:
+        what = "results have shape/dtype %r/%s and %r/%s" % (tuple(Y0.shape), Y0.dtype, tuple(Y.shape), Y.dtype)
+    return violation("history_dependence", "the same %s %s call made before and after %d other solve_ivp call(s) [%s] is not bitwise the same: %s; "
+                     "%d vs %d evaluations of f%s" % (case["method"], case.get("dtype", "f64"), len(case["prelude"]), pre, what, len(tlog0), len(tlog),
+                                                     "" if tlog0 == tlog else " (at different times)"), labels)
+
+
+@st.composite
+def prelude_st(draw, method):
+    """0-2 earlier calls; biased towards the judged method in the other dtype, shrinks to no prelude"""
+    out = []
+    for _ in range(draw(st.sampled_from([0, 1, 0, 1, 1, 2]))):
+        dt = draw(st.sampled_from(["f32", "f32", "f64"]))
+        out.append({"method": draw(st.sampled_from([method, method, "euler", "rk4", "rk38", "rk23", "rk45"])), "dtype": dt,
+                    "dir": draw(st.sampled_from([1, -1])), "form": draw(st.sampled_from(["tensor", "tuple"])),
+                    "shape": draw(st.sampled_from([[1], [3], [2, 2]])), "nt": draw(st.integers(2, 4)),
+                    "tol_e": draw(st.sampled_from([None, 3, 5] if dt == "f32" else [None, 4, 8]))})
+    return out
+
+
+# ------------------------------------------------------------------------------------------------------------------
+# isolation: a violation is reported only if it reproduces without the earlier cases of this worker process
+
+_CHILD = False          # this process is a pristine child answering one confirmation request
+_USED = False           # a case has already run in this process
+_ZYGOTE = None
+_RUNS = {}              # task name -> unwrapped run function
+_CONFIRMED = set()      # tasks with a violation that reproduced in a pristine process
+
+
+def _send(fd, obj):
+    data = json.dumps(obj).encode()
+    data = struct.pack("<I", len(data)) + data
+    while data:
+        data = data[os.write(fd, data):]
+
+
+def _recv(fd):
+    def read(n):
+        buf = b""
+        while len(buf) < n:
+            b = os.read(fd, n - len(buf))
+            if not b:
+                return None
+            buf += b
+        return buf
+    head = read(4)
+    if head is None:
+        return None
+    body = read(struct.unpack("<I", head)[0])
+    return None if body is None else json.loads(body.decode())
+
+
+class _Zygote:
+    """a child forked before the first case of this process has run (same state as a freshly started process).  It forks a
+    grandchild per request, which runs one case and sends back the verdict; it ends when the worker's end of the pipe closes."""
+
+    def __init__(self):
+        rq_r, rq_w = os.pipe()
+        rs_r, rs_w = os.pipe()
+        pid = os.fork()
+        if pid == 0:
+            try:
+                os.close(rq_w)
+                os.close(rs_r)
+                null = os.open(os.devnull, os.O_RDWR)
+                os.dup2(null, 1)
+                os.dup2(null, 2)
+                self._serve(rq_r, rs_w)
+            finally:
+                os._exit(0)
+        os.close(rq_r)
+        os.close(rs_w)
+        self.w, self.r = rq_w, rs_r
+
+    @staticmethod
+    def _serve(r, w):
+        global _CHILD
+        while True:
+            msg = _recv(r)
+            if msg is None:
+                return
+            pid = os.fork()
+            if pid == 0:
+                _CHILD = True
+                try:
+                    try:
+                        v = safe_run(_RUNS[msg["task"]], msg["case"])
+                        out = {"status": v.status, "kind": v.kind, "detail": v.detail, "labels": list(v.labels), "nontrivial": v.nontrivial}
+                    except BaseException:  # noqa: BLE001 - reported to the worker as a harness error
+                        out = {"harness_error": traceback.format_exc()[-3000:]}
+                    _send(w, out)
+                finally:
+                    os._exit(0)
+            _, status = os.waitpid(pid, 0)
+            if status != 0:
+                _send(w, {"harness_error": "the isolated child process ended with status %d" % status})
+
+    def ask(self, task, case):
+        _send(self.w, {"task": task, "case": case})
+        out = _recv(self.r)
+        if out is None or "harness_error" in out:
+            raise HarnessError("isolated re-run of a %s case failed: %s" % (task, (out or {}).get("harness_error", "no answer")))
+        return Verdict(out["status"], kind=out["kind"], detail=out["detail"], labels=tuple(out["labels"]), nontrivial=out["nontrivial"])
+
+
+def isolated(name, run):
+    """run cases in the worker process; a violation seen after earlier cases is confirmed in a pristine process"""
+    _RUNS[name] = run
+
+    def wrapped(case):
+        global _USED, _ZYGOTE
+        if _CHILD:
+            return run(case)
+        if _ZYGOTE is None:
+            _ZYGOTE = _Zygote()
+        if name in _CONFIRMED:
+            # a violation of this task has been confirmed: what follows is mostly the search for a smaller failing case, whose
+            # candidates fail too - run them in the pristine process only instead of twice
+            return _ZYGOTE.ask(name, case)
+        fresh, _USED = not _USED, True
+        try:
+            v = run(case)
+        except XitorchRaised as e:
+            v = violation(e.kind, e.detail)
+        if v.status != "violation":
+            return v
+        if not fresh:
+            v = _ZYGOTE.ask(name, case)
+            if v.status != "violation":
+                return discard("violation_only_after_earlier_cases_of_this_process", v.labels)
+        _CONFIRMED.add(name)
+        return v
+    return wrapped
+
+
 def bitwise_equal(a, b):
-    return a.shape == b.shape and bool(torch.equal(a, b))
+    return a.shape == b.shape and a.dtype == b.dtype and bool(torch.equal(a, b))
 
 
 def state_labels(prob):
@@ -211,14 +502,14 @@ def rerun_checks(case, prob, ts, v0, Y, method, opts, labels, adaptive):
     if sub == "concat":
         # the same dynamics with the other state form: tuple <-> one flat tensor
         other = Problem(prob.rhs, [[prob.N]] if prob.form != "tensor" else _resplit(prob.N, case["k"]),
-                        "tensor" if prob.form != "tensor" else "tuple", prob.n)
+                        "tensor" if prob.form != "tensor" else "tuple", prob.n, prob.dtype)
         res = solve(other, ts, v0, method, **opts)
         Yo = other.result_flat(res, nt)
         if isinstance(Yo, str):
             return violation("result_shape", Yo, labels)
         if adaptive:
             # same flat arithmetic; allow a few ulp (an implementation may take norms part by part)
-            tol = 64 * EPS * (1.0 + float(Y.abs().max()))
+            tol = 64 * dtype_of(case)[1] * (1.0 + float(Y.abs().max()))
             if not float((Yo - Y).abs().max()) <= tol:
                 return violation("tuple_vs_concat", "tuple/list state and concatenated tensor state differ by %.3e (tol %.3e)"
                                  % (float((Yo - Y).abs().max()), tol), labels)
@@ -248,16 +539,18 @@ def run_fixed_scheme(case):
     torch.manual_seed(0)
     method = case["method"]
     s = R.STAGES[method]
-    prob = make_problem(case, lambda n: R.GenericRHS(case["seed"], n, case["wscale"]))
+    dt, EPS = dtype_of(case)
+    prob = make_problem(case, lambda n: RHS(case["seed"], n, case["wscale"], dt))
     L = prob.rhs.L
     g = torch.Generator().manual_seed(case["seed"] ^ 0x1234567)
-    v0 = torch.randn((prob.N,), generator=g, dtype=DT)
-    tvals = R.grid_values(case["grid"], span_of(case["grid"]))
-    ts = torch.tensor(tvals, dtype=DT)
+    v0 = torch.randn((prob.N,), generator=g, dtype=DT).to(dt)
+    tvals = grid_times(case, span_of(case["grid"]))
+    ts = torch.tensor(tvals, dtype=dt)
     nt = len(tvals)
-    labels = ["method=" + method] + R.grid_labels(case["grid"]) + state_labels(prob) + ["sub=" + case["sub"], "W=%g" % case["wscale"]]
+    labels = ["method=" + method] + R.grid_labels(case["grid"]) + state_labels(prob) + [
+        "sub=" + case["sub"], "W=%g" % case["wscale"], "dtype=" + case.get("dtype", "f64"), prelude_label(case)]
 
-    res = solve(prob, ts, v0, method)
+    res, before = judged_solve(case, prob, ts, v0, method)
     log = prob.log
     Y = prob.result_flat(res, nt)
     if isinstance(Y, str):
@@ -265,9 +558,12 @@ def run_fixed_scheme(case):
     if prob.bad:
         return violation("fcn_arguments", prob.bad, labels)
     if not bitwise_equal(Y[0], v0):
-        return violation("y0_not_exact", "y[0] differs from y0 by %.3e" % float((Y[0] - v0).abs().max()), labels)
+        return violation("y0_not_exact", "y[0] differs from y0 by %.3e" % float((Y[0].to(DT) - v0.to(DT)).abs().max()), labels)
     if not bool(torch.isfinite(Y).all()):
         return discard("overflow", labels)
+    v = history_check(case, before, Y, log, labels)
+    if v is not None:
+        return v
     if len(log) != s * (nt - 1):
         return violation("call_count", "%d evaluations of f for %d intervals of the %d-stage method %s" % (len(log), nt - 1, s, method), labels)
 
@@ -315,11 +611,12 @@ def state_st(draw):
 
 @st.composite
 def fixed_scheme_st(draw):
-    return {"method": draw(st.sampled_from(["euler", "rk4", "rk38", "rk4", "rk38"])),
+    method = draw(st.sampled_from(["euler", "rk4", "rk38", "rk4", "rk38"]))
+    return {"method": method, "dtype": draw(st.sampled_from(["f64", "f64", "f64", "f32"])),
             "state": draw(state_st()), "grid": draw(R.grid_st()),
             "wscale": draw(st.sampled_from([0.5, 2.0, 5.0])),
             "sub": draw(st.sampled_from(["none", "prefix", "concat"])), "k": draw(st.integers(0, 11)),
-            "seed": draw(st.integers(0, 2 ** 31 - 1))}
+            "prelude": draw(prelude_st(method)), "seed": draw(st.integers(0, 2 ** 31 - 1))}
 
 
 # ------------------------------------------------------------------------------------------------------------------
@@ -337,25 +634,26 @@ def run_adaptive_steps(case):
     s = R.STAGES[method]
     q = R.ADAPTIVE[method][1]
     cls = R.scipy_pair(method)
-    prob = make_problem(case, lambda n: R.GenericRHS(case["seed"], n, case["wscale"]))
+    dt, EPS = dtype_of(case)
+    prob = make_problem(case, lambda n: RHS(case["seed"], n, case["wscale"], dt))
     L = prob.rhs.L
     g = torch.Generator().manual_seed(case["seed"] ^ 0x1234567)
-    v0 = torch.randn((prob.N,), generator=g, dtype=DT)
+    v0 = torch.randn((prob.N,), generator=g, dtype=DT).to(dt)
     atol, rtol = tol_values(case)
     # expected number of steps ~ L*T / tol^(1/(q+1)); the span of "long" grids is limited so that it stays <= ~600
     tol_eff = min(atol, max(rtol, 1e-300)) if rtol > 0 else atol
     tol_eff = min(tol_eff, 1.0)
     span = min(span_of(case["grid"]), 600.0 * tol_eff ** (1.0 / (q + 1)) / L)
-    tvals = R.grid_values(case["grid"], span)
-    ts = torch.tensor(tvals, dtype=DT)
+    tvals = grid_times(case, span)
+    ts = torch.tensor(tvals, dtype=dt)
     nt = len(tvals)
     d = float(case["grid"]["dir"])
     opts = {"atol": atol, "rtol": rtol}
     labels = ["method=" + method] + R.grid_labels(case["grid"]) + state_labels(prob) + [
         "sub=" + case["sub"], "atol=" + ("huge" if case["atol_e"] is None else "1e-%d" % case["atol_e"]),
-        "rtol=" + ("0" if case["rtol_e"] is None else "1e-%d" % case["rtol_e"])]
+        "rtol=" + ("0" if case["rtol_e"] is None else "1e-%d" % case["rtol_e"]), "dtype=" + case.get("dtype", "f64"), prelude_label(case)]
 
-    res = solve(prob, ts, v0, method, **opts)
+    res, before = judged_solve(case, prob, ts, v0, method, **opts)
     log = prob.log
     Y = prob.result_flat(res, nt)
     if isinstance(Y, str):
@@ -363,9 +661,12 @@ def run_adaptive_steps(case):
     if prob.bad:
         return violation("fcn_arguments", prob.bad, labels)
     if not bitwise_equal(Y[0], v0):
-        return violation("y0_not_exact", "y[0] differs from y0 by %.3e" % float((Y[0] - v0).abs().max()), labels)
+        return violation("y0_not_exact", "y[0] differs from y0 by %.3e" % float((Y[0].to(DT) - v0.to(DT)).abs().max()), labels)
     if not bool(torch.isfinite(Y).all()):
         return discard("overflow", labels)
+    v = history_check(case, before, Y, log, labels)
+    if v is not None:
+        return v
     # evaluations: f(ts[0], y0), optionally one probe inside the first interval (initial step-size selection), then exactly
     # s per attempted step (stages 2..s and the first-same-as-last evaluation at the end of the step)
     if (len(log) - 1) % s == 0 and len(log) >= 1 + s:
@@ -378,10 +679,11 @@ def run_adaptive_steps(case):
         return violation("first_call", "first evaluation at t=%r y=%s, expected (ts[0], y0)" % (log[0][0], log[0][1].tolist()[:4]), labels)
 
     def f_np(t, y):
-        return prob.f_flat(torch.tensor(t, dtype=DT), torch.from_numpy(np.ascontiguousarray(y))).numpy()
+        return prob.f_flat64(torch.tensor(t, dtype=DT), torch.from_numpy(np.ascontiguousarray(y))).numpy()
 
+    single = dt != DT
     natt = (len(log) - off) // s
-    bt, by = tvals[0], v0.numpy().copy()
+    bt, by = tvals[0], v0.to(DT).numpy().copy()
     bf = f_np(bt, by)
     accepted_states = []          # (t_end, y_end tensor)
     nrej = 0
@@ -397,8 +699,13 @@ def run_adaptive_steps(case):
         ymag = max(float(np.abs(by).max()), float(np.abs(ynew).max()))
         amp = (1.0 + ah * L) ** s
         ulp_t = EPS * (abs(bt) + abs(t_end))
-        tol = 32 * s * EPS * (ymag + ah * kmax) * amp + 4 * ulp_t * (kmax + ah * ymag) * amp
-        e = float(np.abs(y_end.numpy() - ynew).max())
+        if single and 0.0 < ah < 256 * ulp_t:      # (zero-length steps at a requested time exist and are trivially right)
+            # (float32 only) the reconstruction reads the steps off the evaluation times; it needs steps that the time variable resolves
+            return discard("step_at_time_resolution", labels)
+        # float32: evaluation error of f itself against the float64 reference evaluation (see the module docstring)
+        fnoise = (prob.n + 8) * EPS * (L * ymag + kmax) if single else 0.0
+        tol = 32 * s * EPS * (ymag + ah * kmax) * amp + 4 * ulp_t * (kmax + ah * ymag) * amp + 4 * s * ah * fnoise * amp
+        e = float(np.abs(y_end.to(DT).numpy() - ynew).max())
         if not e <= tol:
             return violation("embedded_step", "%s attempted step %d from t=%r with h=%r: state at the end of the step differs from SciPy's %s step by %.3e (tol %.3e)\n got %s\n ref %s"
                              % (method, k, bt, h, method.upper(), e, tol, y_end.tolist()[:6], ynew.tolist()[:6]), labels)
@@ -416,7 +723,8 @@ def run_adaptive_steps(case):
             acc = d * (log[off + (k + 2) * s - 1][0] - t_end) >= 0.0
         est = float(np.linalg.norm(err))
         scale = atol + rtol * max(float(np.linalg.norm(by)), float(np.linalg.norm(ynew)))
-        band = 64 * EPS * ah * float((Eabs * Kn).sum()) * amp + 1e-9 * scale + (ulp_t / ah * est if ah > 0 else 0.0)
+        band = 64 * EPS * ah * float((Eabs * Kn).sum()) * amp + max(1e-9, 64 * EPS) * scale + (ulp_t / ah * est if ah > 0 else 0.0) \
+            + ah * float(Eabs.sum()) * fnoise * math.sqrt(prob.N) * amp
         if acc and est > scale + band:
             return violation("accepted_above_tolerance", "%s step %d (t=%r, h=%r) was accepted although SciPy's error estimate %.6e exceeds atol+rtol*max|y| = %.6e"
                              % (method, k, bt, h, est, scale), labels)
@@ -424,7 +732,7 @@ def run_adaptive_steps(case):
             return violation("rejected_below_tolerance", "%s step %d (t=%r, h=%r) was rejected although SciPy's error estimate %.6e is below atol+rtol*max|y| = %.6e"
                              % (method, k, bt, h, est, scale), labels)
         if acc:
-            bt, by = t_end, y_end.numpy().copy()
+            bt, by = t_end, y_end.to(DT).numpy().copy()
             bf = f_np(bt, by)
             accepted_states.append((t_end, y_end))
         else:
@@ -459,9 +767,18 @@ def run_adaptive_steps(case):
 
 
 @st.composite
-def tol_st(draw, method, tier):
+def tol_st(draw, method, tier, dtype="f64"):
     lo = 11 if method == "rk45" else (9 if tier == "thorough" else 8)
     mode = draw(st.sampled_from(["both", "both", "atol_only", "huge", "rtol_dominant"]))
+    if dtype == "f32":
+        # requested tolerances stay above the precision of the dtype (eps = 1.2e-7)
+        if mode == "huge":
+            return {"atol_e": None, "rtol_e": draw(st.sampled_from([None, 4]))}
+        if mode == "atol_only":
+            return {"atol_e": draw(st.integers(2, 5)), "rtol_e": None}
+        if mode == "rtol_dominant":
+            return {"atol_e": draw(st.integers(6, 7)), "rtol_e": draw(st.integers(2, 5))}
+        return {"atol_e": draw(st.integers(2, 5)), "rtol_e": draw(st.integers(2, 5))}
     if mode == "huge":
         return {"atol_e": None, "rtol_e": draw(st.sampled_from([None, 6]))}
     if mode == "atol_only":
@@ -474,11 +791,12 @@ def tol_st(draw, method, tier):
 @st.composite
 def adaptive_steps_st(draw, tier="quick"):
     method = draw(st.sampled_from(["rk23", "rk45"]))
-    c = {"method": method, "state": draw(state_st()), "grid": draw(R.grid_st()),
+    dtype = draw(st.sampled_from(["f64", "f64", "f64", "f32"]))
+    c = {"method": method, "dtype": dtype, "state": draw(state_st()), "grid": draw(R.grid_st()),
          "wscale": draw(st.sampled_from([0.5, 2.0, 5.0])),
          "sub": draw(st.sampled_from(["none", "none", "prefix", "concat"])), "k": draw(st.integers(0, 11)),
-         "seed": draw(st.integers(0, 2 ** 31 - 1))}
-    c.update(draw(tol_st(method, tier)))
+         "prelude": draw(prelude_st(method)), "seed": draw(st.integers(0, 2 ** 31 - 1))}
+    c.update(draw(tol_st(method, tier, dtype)))
     return c
 
 
@@ -723,10 +1041,12 @@ def first_step_st(draw, tier="quick"):
 
 
 def tasks(tier):
+    def task(name, strategy, run, examples):
+        return Task(name, strategy=strategy, run=isolated(name, run), examples=examples)
     return [
-        Task("fixed_scheme", strategy=fixed_scheme_st(), run=run_fixed_scheme, examples={"quick": 3000, "thorough": 30000}),
-        Task("fixed_order", strategy=fixed_order_st(), run=run_fixed_order, examples={"quick": 800, "thorough": 6000}),
-        Task("adaptive_steps", strategy=adaptive_steps_st(tier), run=run_adaptive_steps, examples={"quick": 1400, "thorough": 9000}),
-        Task("adaptive_acc", strategy=adaptive_acc_st(tier), run=run_adaptive_acc, examples={"quick": 1000, "thorough": 8000}),
-        Task("first_step", strategy=first_step_st(tier), run=run_adaptive_acc, examples={"quick": 48, "thorough": 400}),
+        task("fixed_scheme", fixed_scheme_st(), run_fixed_scheme, {"quick": 3000, "thorough": 30000}),
+        task("fixed_order", fixed_order_st(), run_fixed_order, {"quick": 800, "thorough": 6000}),
+        task("adaptive_steps", adaptive_steps_st(tier), run_adaptive_steps, {"quick": 1400, "thorough": 9000}),
+        task("adaptive_acc", adaptive_acc_st(tier), run_adaptive_acc, {"quick": 1000, "thorough": 8000}),
+        task("first_step", first_step_st(tier), run_adaptive_acc, {"quick": 48, "thorough": 400}),
     ]
